@@ -1,7 +1,8 @@
 """C10 — a SNAP token is accepted exactly when authentic, for SNAP, and within lifetime."""
 import re
 import templates as T
-from facts import tokens, fmt, short, walk
+import panic as PN
+from facts import tokens, fmt, short, walk, strip_sites
 
 CRATES = ["snap_control", "snap_tokens", "scion_sdk_token_validator"]
 
@@ -277,6 +278,8 @@ def run(F, R, tier, cfg):
                 R.violation("FLOW-lifetime", p + "/lifetime", "the registration lifetime is not (only) the token's remaining lifetime: %s" % fmt(o, 240), c.span.loc)
 
     version_dispatch(F, R)
+    required_claims_rule(F, R)
+    jwks_pair_rule(F, R)
 
 
 DESER = "<snap_tokens::AnyClaims as serde_core::de::Deserialize<'de>>::deserialize"
@@ -320,3 +323,73 @@ def version_dispatch(F, R):
             R.violation("TBL-version", DESER + "/V1", "V1 claims can be produced for a `ver` other than the number 1", sp.loc)
     other = [k for k in cons if k not in ("V0", "V1")]
     R.extra["claims_versions_constructed"] = sorted(cons)
+
+
+def required_claims_rule(F, R):
+    """REQ-claims: a token is 'within lifetime' only if it says when it starts and ends.  For both claim versions the derived
+    Deserialize must *require* every non-optional field of the claims struct: for each field whose type is not Option<_> (and
+    that is not the flattened map of private claims) the generated visit_map contains `Error::missing_field("<name>")`.
+    `#[serde(default)]` on exp/nbf/iat silently turns an absent claim into 0."""
+    n = 0
+    for ver in ("v0", "v1"):
+        adt = F.adts.get("snap_tokens::%s::SnapTokenClaims" % ver)
+        vm = [p for p in F.all_body_paths("snap_tokens") if ("for snap_tokens::%s::SnapTokenClaims>" % ver) in p and p.endswith("visit_map")]
+        if adt is None or not vm:
+            R.anchor_missing("snap_tokens::%s::SnapTokenClaims / its derived visit_map" % ver)
+            continue
+        b = F.body(vm[0])
+        R.fn(vm[0])
+        req = set()
+        for c in b.calls:
+            if not c.indirect and c.decl.endswith("missing_field") and c.bb in b.live_blocks():
+                m = re.search(r"str:(\w+)", fmt(strip_sites(b.origin(c.args[0])), 60))
+                if m:
+                    req.add(m.group(1))
+        want = {f[0] for f in adt["variants"][0][2] if not f[1].startswith("core::option::Option") and "BTreeMap" not in f[1] and "HashMap" not in f[1]}
+        n += 1
+        missing = sorted(want - req)
+        ok = not missing and bool(want)
+        R.ob("REQ-claims", "%s claims: every non-optional field is required by the deserializer (%s)" % (ver, sorted(want)), ok, True,
+             {"rule": "REQ-claims", "version": ver, "non_optional_fields": sorted(want), "required_by_deserializer": sorted(req), "holds": ok})
+        if not ok:
+            R.violation("REQ-claims", "%s/%s" % (ver, "+".join(missing)), "%s SnapTokenClaims: the deserializer does not require %s — a signed token without those claims "
+                        "is accepted with the field defaulted (nbf/iat/exp = 0)" % (ver, missing), F.loc(vm[0]))
+    R.floor("REQ-claims", n, 2, "claims versions (v0, v1)")
+
+
+JWKS_FETCH = "snap_control::server::jwks_key_store::JwksKeyStore::do_fetch"
+
+
+def jwks_pair_rule(F, R):
+    """PAIR-jwks: 'authentic' is decided with the cached DecodingKey; the cache entry also stores the JWK it was derived from.
+    Wherever a refresh overwrites an entry's `jwk` it must overwrite its `decoding_key` under the same conditions (or build a
+    whole new KeyEntry) — otherwise a rotated key keeps verifying with the old material."""
+    ps = [p for p in F.all_body_paths("snap_control") if p.startswith(JWKS_FETCH)]
+    if not ps:
+        R.anchor_missing(JWKS_FETCH)
+        return
+    n = 0
+    for p in ps:
+        b = F.body(p)
+        stores = {"jwk": [], "decoding_key": []}
+        for bb in sorted(b.live_blocks()):
+            for st in b.stmts(bb):
+                if st[0] == "=" and st[1][1] and isinstance(st[1][1][-1], list) and st[1][1][-1][0] == "f" and st[1][1][-1][2] in stores:
+                    stores[st[1][1][-1][2]].append(bb)
+            t = b.term(bb)
+            if t[0] == "drop":
+                pass
+        # drop-and-replace of a field shows up as an assignment after a drop of the old value: both are `=` statements here
+        if not stores["jwk"] and not stores["decoding_key"]:
+            continue
+        R.fn(p)
+        for bb in stores["jwk"]:
+            n += 1
+            gj = sorted((g, pol) for g, cond, pol in PN._cmp_guards(b, bb))
+            ok = any(sorted((g, pol) for g, cond, pol in PN._cmp_guards(b, d0)) == gj or b.dominates(d0, bb) or b.dominates(bb, d0) for d0 in stores["decoding_key"])
+            R.ob("PAIR-jwks", "%s: entry.jwk overwritten together with entry.decoding_key" % short(p), ok, True,
+                 {"rule": "PAIR-jwks", "fn": p, "jwk_store_block": bb, "decoding_key_store_blocks": stores["decoding_key"], "holds": ok})
+            if not ok:
+                R.violation("PAIR-jwks", p, "a JWKS refresh replaces a cache entry's `jwk` without replacing its `decoding_key`: after a key rotation under the same "
+                            "kid, tokens signed with the replaced key keep verifying and tokens signed with the new key are refused", b.term_span(bb).loc)
+    R.floor("PAIR-jwks", n, 1, "overwrites of a cached entry's jwk in JwksKeyStore::do_fetch")
